@@ -234,6 +234,15 @@ inductive PyTok
   -- _get_isolated_junctions_and_links
   | forPrevJ | clearJ | forPrevL | clearL | onesIndicator | callSearch | idsWhereOne | newSets | forIds | flagJ | addJ
   | linksOfNode | forConnected | flagL | addL | updateModel | keepJ | keepL | returnCounts
+  -- _initialize_internal_graph
+  | initLists | forInitLinks | endIds | ifNewPair | zeroCounts | incCounts | pushBoth | ifLinkClosed | push0 | push1
+  | buildCsr | newNdxMap | forNdxLinks | lookupBoth | keepNdxMap | rowLengths | newMulti | forPairs | ifSeveral | skipReverse
+  | zeroPair | newList | forLinksOfFrom | getLink | ifTouchesTo | appendLink
+  | newSources | forSources | appendSource | packSources
+  -- _get_csr_data_index
+  | rowStart | rowLen | rowCols | counter0 | forCols | ifColEq | returnPos | incCounter | raiseNotFound
+  -- head of run_sim
+  | seedJ | seedL | createModel | controlManagers | registerObservers | initGraph | refGraph | refModel
   | close
   deriving DecidableEq, Repr
 
@@ -247,6 +256,25 @@ def refIsolatedToks : List PyTok :=
    .onesIndicator, .callSearch, .idsWhereOne, .newSets,
    .forIds, .flagJ, .addJ, .linksOfNode, .forConnected, .flagL, .addL, .close, .close,
    .updateModel, .keepJ, .keepL, .returnCounts]
+
+/-- `_initialize_internal_graph`, as `initGraph` (with `countLinks`, `buildCsr`, `getCsrDataIndex`, `multiTable`, `initStep`) reads it -/
+def refInitToks : List PyTok :=
+  [.initLists,
+   .forInitLinks, .endIds, .ifNewPair, .zeroCounts, .close, .incCounts, .pushBoth, .ifLinkClosed, .push0, .else_, .push1, .close, .close,
+   .buildCsr, .newNdxMap,
+   .forNdxLinks, .endIds, .lookupBoth, .close,
+   .keepNdxMap, .rowLengths, .newMulti,
+   .forPairs, .ifSeveral, .skipReverse, .zeroPair, .newList,
+     .forLinksOfFrom, .getLink, .ifTouchesTo, .appendLink, .ifLinkNotClosed, .write1, .close, .close, .close, .close, .close,
+   .newSources, .forSources, .appendSource, .close, .forSources, .appendSource, .close, .packSources]
+
+/-- `_get_csr_data_index(a, row, col)` (model: `getCsrDataIndex`) -/
+def refCsrIndexToks : List PyTok :=
+  [.rowStart, .rowLen, .rowCols, .counter0, .forCols, .ifColEq, .returnPos, .close, .incCounter, .close, .raiseNotFound]
+
+/-- the statements of the head of `run_sim` that `startRun` stands for, in source order, none of them conditional -/
+def refHeadToks : List PyTok :=
+  [.seedJ, .seedL, .createModel, .controlManagers, .registerObservers, .initGraph, .refGraph, .refModel]
 
 /-- the calls of the `while True:` body of `run_sim` that touch statuses, the graph, the flags or the results, in source order -/
 inductive LoopTok
